@@ -221,9 +221,17 @@ fn run_blocking(line: &str) -> String {
         return "bad-case".into();
     };
     if c.api == Api::Async {
+        if c.rx == Rx::Refill {
+            return "bad-case".into();
+        }
         return run_async(&c);
     }
-    if c.rx == Rx::Hangup || (c.rx == Rx::Refill && (c.op != OpK::Send || c.prefill < c.cap)) {
+    // the timing verdict needs a budget that dwarfs scheduling noise: 200 ms ≤ T ≤ 5 s
+    let refill_ok = c.op == OpK::Send
+        && c.prefill >= c.cap
+        && c.timeout >= Duration::from_millis(200)
+        && c.timeout <= Duration::from_secs(5);
+    if c.rx == Rx::Hangup || (c.rx == Rx::Refill && !refill_ok) {
         return "bad-case".into();
     }
     let (sender, receiver): (Sender<Vec<u64>>, Receiver<Vec<u64>>) = emit_batcher::bounded(c.cap);
